@@ -645,4 +645,11 @@ def rule_write(ctx: Ctx, rule: str = "C01.write"):
                           "writes: " + ", ".join(s.name for s in ws))
 
 
-RULES = [rule_loop, rule_none, rule_match, rule_allof, rule_expected, rule_reject, rule_write]
+def rule_copied_guards(ctx: Ctx):
+    """C01.expected: the per-state copies made for from_.any() keep the polarity of every guard."""
+    from . import c15
+
+    c15.rule_copy(ctx, rule="C01.expected")
+
+
+RULES = [rule_loop, rule_none, rule_match, rule_allof, rule_expected, rule_reject, rule_write, rule_copied_guards]
